@@ -70,6 +70,8 @@ impl<T> Ptr<T> {
     pub fn read(&self) -> (r: LayoutResult<&T>) ensures r is Ok ==> *r->Ok_0 == *self.v { Ok(&*self.v) }
 }
 impl<T> Clone for Ptr<T> { #[verifier::external_body] fn clone(&self) -> (r: Self) ensures r == *self { unimplemented!() } }
+//@ pin layout21utils/src/ptr.rs :: impl<T> PtrList<T> :: fn insert @cadd958f
+//@ pin layout21utils/src/ptr.rs :: impl<T> PtrList<T> :: fn add @305d31d1
 /// model of layout21utils::PtrList<T> (newtype over Vec<Ptr<T>>); `insert` = `add`: wrap in a new Ptr, append, return the pointer
 pub struct PtrList<T> { pub v: Vec<Ptr<T>> }
 impl<T> View for PtrList<T> { type V = Seq<Ptr<T>>; open spec fn view(&self) -> Seq<Ptr<T>> { self.v@ } }
@@ -241,6 +243,7 @@ impl<'lib> ProtoExporter<'lib> {
 //|             && path_is(final(pshapes).paths@.last(), p) && final(pshapes).paths@.last().net@.len() == 0 && final(pshapes).rectangles@ == old(pshapes).rectangles@ && final(pshapes).polygons@ == old(pshapes).polygons@,
 //|     }),
 //@ end
+    //@ pin layout21raw/src/proto.rs :: impl<'lib> ProtoExporter<'lib> :: fn export_angle @91a4f6ed
     /// the float side of export_angle is outside the verifier: ASSUMED contract (whole degrees or an error), see DESIGN
     #[verifier::external_body]
     fn export_angle(&mut self, angle: Option<f64>) -> (r: LayoutResult<i32>)
@@ -350,6 +353,8 @@ impl ProtoImporter {
 //@   before /^        Ok\(inst\)$/
 //|         proof { assert(self.ctx@ =~= old(self).ctx@); }
 //@ end
+    //@ pin layout21raw/src/proto.rs :: impl ProtoImporter :: fn import_layer @98c3c818
+    //@ pin layout21raw/src/data.rs :: impl Layers :: fn get_or_insert @8ccc5028
     /// model of ProtoImporter::import_layer (looks the (number, purpose) pair up in / adds it to the shared layer table): ASSUMED to be a function of the pair
     #[verifier::external_body]
     fn import_layer(&mut self, player: &proto::Layer) -> (r: LayoutResult<(LayerKey, LayerPurpose)>)
